@@ -49,15 +49,38 @@ func readSaved(st *session.StorageMemory) tr.M {
 	return tr.M{"dc": d.DC, "key": kn, "salt": int(d.Salt)}
 }
 
+// racingStorage runs a callback inside the storage read that saveSession performs (a *_MIGRATE error handled by
+// another goroutine while the session is being saved).
+type racingStorage struct {
+	*session.StorageMemory
+	armed  bool
+	onLoad func()
+}
+
+func (r *racingStorage) LoadSession(ctx context.Context) ([]byte, error) {
+	if r.armed {
+		r.armed = false
+		r.onLoad()
+	}
+	return r.StorageMemory.LoadSession(ctx)
+}
+
 func init() {
 	modules["sesssave"] = func(c tr.M, rng *rand.Rand) tr.M {
 		in := tr.Map(c["in"])
 		st := &session.StorageMemory{}
-		cl := telegram.NewClient(1, "hash", telegram.Options{SessionStorage: st, DC: 2, NoUpdates: true})
+		rs := &racingStorage{StorageMemory: st}
+		cl := telegram.NewClient(1, "hash", telegram.Options{SessionStorage: rs, DC: 2, NoUpdates: true})
+		rs.onLoad = func() { cl.VerifMigrate(4) }
 		switch tr.Str(in["kind"]) {
 		case "save":
 			var out []any
-			for _, n := range tr.List(in["notes"]) {
+			race := -1
+			if v, ok := in["race"]; ok {
+				race = tr.Int(v)
+			}
+			for ni, n := range tr.List(in["notes"]) {
+				rs.armed = ni+1 == race
 				m := tr.Map(n)
 				s := mtproto.Session{ID: rng.Int63(), Key: keyN(tr.Int(m["key"])), Salt: int64(tr.Int(m["salt"]))}
 				if p := tr.Int(m["perm"]); p != 0 {
